@@ -1173,9 +1173,13 @@ def closure_case(draw, tier):
         case["chain"]["ipr"] = True
         case["shape"] = case["chain"]["shape"]
     elif sub == "mismatch":
-        pair = draw(st.sampled_from(NON_ENSEMBLE_PAIRS))
+        pair = draw(st.sampled_from(NON_ENSEMBLE_PAIRS + ("gate_ensemble", "povm_ensemble") + ("mprocess_ensemble",) * 4))
         ta, tb = pair.split("_")
         how = draw(st.sampled_from(["fresh-system-same-names", "other-name", "other-dimension"]))
+        if tb == "ensemble":
+            # (with an ensemble operand the library compares no composite systems: only a dimension mismatch fails, and
+            # then inside the arithmetic; any exception is accepted, the point is what state the failure leaves behind)
+            how = "other-dimension"
         other = shape
         if how == "other-dimension":
             other = draw(st.sampled_from([s for s in ("1q", "qutrit", "2q") if s != shape]))
@@ -1262,7 +1266,12 @@ def check_closure(case, ctx):
         else:
             c2 = build.c_sys_for(oshape)
         qb = q_build(b, c2, gen.ref_basis(oshape), True)
-        ctx.raises((ValueError,), lambda: compose_qoperations(qa, qb), "mismatched_systems_valueerror", case["pair"] + " " + how)
+        if case["pair"].endswith("_ensemble"):
+            ctx.raises((ValueError, TypeError, IndexError), lambda: compose_qoperations(qa, qb), "mismatched_dimension_with_ensemble_raises",
+                       case["pair"])
+        else:
+            ctx.raises((ValueError,), lambda: compose_qoperations(qa, qb), "mismatched_systems_valueerror", case["pair"] + " " + how)
+        # (what the failure leaves behind in process-global state is checked by the runner after every case)
         ctx.nontrivial(True)
         return
 
